@@ -23,6 +23,8 @@ lenient reload), not by a theorem; so is "all … values are permitted in the fi
 -/
 import AutosarVerif.Lemmas.Range
 import AutosarVerif.Model.ToySpec
+import AutosarVerif.Lemmas.RangeGroups
+import AutosarVerif.Lemmas.RangeGroupsReach
 
 namespace AV.C07
 open AV.W
@@ -100,5 +102,41 @@ example : insertRange toySpec (hdr 0 100 0) (.elem (hdr 1 102 2) .nil .nil) 102 
 example : insertRange toySpec (hdr 0 100 0) (.elem (hdr 1 101 1) .nil .nil) 101 1 = none := by decide
 example : InOrder cmpIdx [[0], [1], [1]] := by simp [InOrder, cmpIdx]
 example : Fits cmpIdx [[1]] 0 [0] ∧ ¬ Fits cmpIdx [[1]] 1 [0] := by simp [Fits, InOrder, cmpIdx]
+
+
+/-! ### added in the third session: statements proved in the lemma files, restated here by name
+(`type_of%` keeps the statement identical to the lemma; the signature is quoted in the comment) -/
+
+/-- **nested groups and CHOICE groups** (`Lemmas/RangeGroups.lean`; `OrderedKids` = children known to the type and pairwise in specification order by their full index paths, `Allowed` = found in the version, no conflict with an exclusive alternative, multiplicity not exhausted): a range is reported exactly when the new element is allowed
+`theorem insertRange_isSome_iff (h : Hdr) (kids : Items) (name ver : Nat) (hord : OrderedKids S h.ety.typ ver kids) : (insertRange S h kids name ver).isSome ↔ Allowed S h kids name ver` -/
+theorem C07_range_reported_iff_allowed : type_of% @AV.W.insertRange_isSome_iff := @AV.W.insertRange_isSome_iff
+
+/-- … and then the range is exactly the set of positions at which the insertion keeps `OrderedKids`, for arbitrary nesting below a SEQUENCE or CHOICE parent
+`theorem insertRange_range_exact (h : Hdr) (kids : Items) (name ver : Nat) (hmode : S.mode h.ety.typ = .sequence ∨ S.mode h.ety.typ = .choice) (hord : OrderedKids S h.ety.typ ver kids) (lo hi : Nat) (hr : insertRange S h kids name ver = some (lo, hi)) (nh : Hdr) (nk : Items) (hname : nh.name = name) : ∀ p, p ≤ kids.length → ((lo ≤ p ∧ p ≤ hi) ↔ OrderedKids S h.ety.typ ver (kids.insertAt (fun r => .elem nh nk r) p))` -/
+theorem C07_range_exact_nested_groups : type_of% @AV.W.insertRange_range_exact := @AV.W.insertRange_range_exact
+
+/-- … for any parent mode, for specifications in which no BAG / MIXED group contains a group (`BagFlat`; without it `C07_obs_bag_parent_not_scanned`)
+`theorem insertRange_range_exact_all (hB : BagFlat S) (h : Hdr) (kids : Items) (name ver : Nat) (hord : OrderedKids S h.ety.typ ver kids) (lo hi : Nat) (hr : insertRange S h kids name ver = some (lo, hi)) (nh : Hdr) (nk : Items) (hname : nh.name = name) : ∀ p, p ≤ kids.length → ((lo ≤ p ∧ p ≤ hi) ↔ OrderedKids S h.ety.typ ver (kids.insertAt (fun r => .elem nh nk r) p))` -/
+theorem C07_range_exact_any_parent : type_of% @AV.W.insertRange_range_exact_all := @AV.W.insertRange_range_exact_all
+
+/-- `theorem opCreate_ok_iff_keeps_order (V : Env) (hB : BagFlat S) (w : World) (p name pos k : Nat) (c : List (Hdr × Items)) (ver lo hi : Nat) (ety : ETy) (idx : List Nat) (hl : locate w p = some (k, c)) (hv : minVersion V (w.models[k]!) c = some ver) (hr : insertRange S (lastOf c).1 (lastOf c).2 name ver = some (lo, hi)) (hf : S.findSub (lastOf c).1.ety.typ name ver = some (ety, idx)) (hn : S.isNamedIn ety.typ ver = false) (hord : OrderedKids S (lastOf c).1.ety.typ ver (lastOf c).2) (hp : pos ≤ (lastOf c).2.length) (nh : Hdr) (nk : Items) (hname : nh.name = name) : (opCreate S V w p name (some pos)).2 ≠ .err ↔ OrderedKids S (lastOf c).1.ety.typ ver ((lastOf c).2.insertAt (fun r => .elem nh nk r) pos)` -/
+theorem C07_create_at_iff_keeps_order : type_of% @AV.W.opCreate_ok_iff_keeps_order := @AV.W.opCreate_ok_iff_keeps_order
+
+/-- `list_valid_sub_elements` marks a name as allowed exactly when a range is reported for it
+`theorem valid_allowed_iff (h : Hdr) (kids : Items) (nm ver : Nat) : (∃ named, (nm, named, true) ∈ validEntries S h kids ver) ↔ (insertRange S h kids nm ver).isSome` -/
+theorem C07_allowed_list_is_exact : type_of% @AV.W.valid_allowed_iff := @AV.W.valid_allowed_iff
+
+/-- every tree built by any guarded history of the core operations with files of ONE version is in specification order (`WOrdered`); across versions the index paths of 17 (type, name) pairs differ, `C07_obs_order_depends_on_version`
+`theorem run_wordered_uniform (hH : IdxHyp S V ver) (hR : RefWF S) (hB : BagFlat S) (hsingle : ∀ v, v &&& ver = v → v = 0 ∨ v = ver) (ops : List Op) (hops : ∀ op ∈ ops, OpOk S ver op) : WOrdered S ver (run S V rootAttrs ops)` -/
+theorem C07_reachable_states_in_specification_order : type_of% @AV.W.run_wordered_uniform := @AV.W.run_wordered_uniform
+
+/-- `theorem obs_unknown_child_blocks_append : insertRange grpSpec (gh 0 100 0) (gk [101, 555]) 107 1 = some (1, 1) ∧ insertRange grpSpec (gh 0 100 0) (gk [101]) 107 1 = some (1, 1) ∧ insertRange grpSpec (gh 0 100 0) (gk [555]) 107 1 = some (0, 0)` -/
+theorem C07_obs_unknown_child_blocks_append : type_of% @AV.W.obs_unknown_child_blocks_append := @AV.W.obs_unknown_child_blocks_append
+
+/-- `theorem obs_bag_parent_not_scanned : insertRange grpSpec (gh 0 100 13) (gk [104]) 103 1 = some (0, 1) ∧ ¬ OrderedKids grpSpec 13 1 (gk [104, 103]) ∧ insertRange grpSpec (gh 0 100 13) (gk [103]) 103 1 = some (0, 1) ∧ ¬ OrderedKids grpSpec 13 1 (gk [103, 103])` -/
+theorem C07_obs_bag_parent_not_scanned : type_of% @AV.W.obs_bag_parent_not_scanned := @AV.W.obs_bag_parent_not_scanned
+
+/-- `theorem obs_order_depends_on_version : OrderedKids cexSpec 0 1 (.elem (cexHdr 1 999 5) .nil (.elem (cexHdr 2 102 5) .nil .nil)) ∧ ¬ OrderedKids cexSpec 0 2 (.elem (cexHdr 1 999 5) .nil (.elem (cexHdr 2 102 5) .nil .nil))` -/
+theorem C07_obs_order_depends_on_version : type_of% @AV.W.obs_order_depends_on_version := @AV.W.obs_order_depends_on_version
 
 end AV.C07
